@@ -346,13 +346,14 @@ void RadioTap::send(PacketSender& sender, const NetworkInterface& iface) {
 #endif
 
 bool RadioTap::matches_response(const uint8_t* ptr, uint32_t total_sz) const {
-    if (sizeof(header_) < total_sz) {
+    if (total_sz < sizeof(header_)) {
         return false;
     }
     const radiotap_header* radio_ptr = (const radiotap_header*)ptr;
-    if (radio_ptr->it_len <= total_sz) {
-        ptr += radio_ptr->it_len;
-        total_sz -= radio_ptr->it_len;
+    const uint32_t length = Endian::le_to_host<uint16_t>(radio_ptr->it_len);
+    if (length <= total_sz) {
+        ptr += length;
+        total_sz -= length;
         return inner_pdu() ? inner_pdu()->matches_response(ptr, total_sz) : true;
     }
     return false;
